@@ -71,6 +71,36 @@ def monitor_x(c):
     return None, None, None
 
 
+def monitor_earlydup(c):
+    """genuine early application data with network duplicates (TestVerifC06EarlyDup): the property's own predicate -
+    no payload is returned by Read more times than the peer wrote it (once); nothing early is lost either"""
+    if c.get("notes"):
+        return None, None
+    who = "server's" if c["receiver"] == "client" else "client's"
+    base = {"version": 12, "receiver": c["receiver"], "resumed": c["resumed"]}
+    if not c["done"]:
+        return ("%d application record(s) with duplicates overtook the %s ChangeCipherSpec/Finished: the %s handshake did not "
+                "complete although the final flight arrived (%s)" % (c["n"], who, c["receiver"], c.get("notes2") or "still pending"),
+                dict(base, monitor="early records with duplicates block or fail the handshake"))
+    counts = {}
+    for i in c["after"]:
+        counts[i] = counts.get(i, 0) + 1
+    twice = sorted(i for i, k in counts.items() if k > 1)
+    if twice:
+        i = twice[0]
+        return ("payload %d (epoch 1 seq %d) was written once by the peer and returned by Read %d times: its datagram overtook the %s "
+                "ChangeCipherSpec/Finished (processed before the %s handshake was marked established, i.e. parked) and the network "
+                "delivered copies of that datagram (arrivals %s); Read returned %s" % (
+                    i, c["seqs"][i] if i < len(c["seqs"]) else -1, counts[i], who, c["receiver"], c["arrivals"], c["after"]),
+                dict(base, monitor="early (parked) payload delivered more than once"))
+    want = list(range(c["n"] + 1))
+    if sorted(c["after"]) != want or c["extra"] or c["parked"]:
+        return ("early records with duplicates: Read returned %s, expected each of %s exactly once (%d unknown payloads, %d record(s) "
+                "still queued)" % (c["after"], want, c["extra"], c["parked"]),
+                dict(base, monitor="early records with duplicates not delivered exactly once"))
+    return None, None
+
+
 def run(chk):
     proved = chk.prove()
     out_u = vlib.out_path("c06u")
@@ -181,6 +211,43 @@ def run(chk):
     chk.count("histories", len(xs), [(c["kind"], c["variant"], c["w"], c["n"], tuple(c.get("before") or [])) for c in xs
                                      if c.get("after")], samples=xs[:2])
     chk.cov["traces_validated_against_impl"] += len(xs)
+    # genuine early application data (parked before the local handshake is marked established) with network duplicates
+    out_d = vlib.out_path("c06d")
+    rc4, o4 = vlib.go_test(".", "^TestVerifC06EarlyDup$", dict(env, VERIF_OUT=out_d), timeout=900, tags=["c06"])
+    ds = vlib.read_jsonl(out_d)
+    vlib.cleanup(out_d)
+    if rc4 != 0:
+        kind = vlib.classify_go_failure(o4)
+        if kind == "panic":
+            chk.finding("conn.go receive path", {"monitor": "panic", "test": "TestVerifC06EarlyDup"}, "panic in TestVerifC06EarlyDup",
+                        {"test": "TestVerifC06EarlyDup", "output": o4[-3000:]})
+            found_input = True
+        else:
+            chk.broken("correspondence harness TestVerifC06EarlyDup no longer runs against /repo (%s)" % kind, o4)
+    elif not ds:
+        chk.broken("TestVerifC06EarlyDup produced no cases", o4)
+    seen_d = set()
+    for c in ds:
+        m, sig = monitor_earlydup(c)
+        if m and json.dumps(sig, sort_keys=True) not in seen_d:
+            seen_d.add(json.dumps(sig, sort_keys=True))
+            found_input = True
+            chk.finding("conn.go handleApplicationDataRecord / parkEarlyApplicationData (replay window commit of a parked record)", sig,
+                        m + " [variant %s, window %d]" % (c["variant"], c["w"]),
+                        {"how": "TestVerifC06EarlyDup (go test -tags verif, overlay c06): DTLS 1.2 handshake in a synctest bubble; the side that "
+                                "sends the last flight (server; client when resumed) completes and writes n payloads; `arrivals` is the order in "
+                                "which the network hands datagrams to the receiver: orig:i = payload i overtaking the held ChangeCipherSpec/"
+                                "Finished datagram, A:i = copy of that datagram while still queued, final = the held final flight, B:i = copy "
+                                "right behind it, C:i = copy after the receiver's handshake returned, fresh = one new record; `after` is what "
+                                "Read returned (payload indices, in order)",
+                         "case": c, "rerun": "VERIF_SEED=%d bin/check C06 --tier %s" % (chk.seed, chk.tier)})
+    setup_fail = [c for c in ds if c.get("notes")]
+    if ds and len(setup_fail) * 4 > len(ds):
+        chk.broken("TestVerifC06EarlyDup: %d of %d scenarios could not be set up (%s)" % (len(setup_fail), len(ds), setup_fail[0]["notes"]), o4)
+    chk.count("earlydup", len(ds), [(c["variant"], c["w"], c["resumed"], c["grouped"], json.dumps(c["plan"])) for c in ds
+                                    if c.get("after") and not c.get("notes") and any(sum(p) for p in c["plan"])],
+              samples=[c for c in ds if not c.get("notes")][-2:])
+    chk.cov["traces_validated_against_impl"] += len(ds)
     if not proved:
         where, out = getattr(chk, "proof_error", ("?", ""))
         chk.broken("proof obligation Properties/C06.v no longer checks (%s)" % where, out) \
